@@ -192,13 +192,6 @@ structure SumLeafOK (c rs : List Var) : Prop where
   not_plus : ∀ v ∈ c, v.base ∈ rs → v.star ≠ some true
   not_sub : ∀ w ∈ c, ∀ i ∈ w.ivs, i.star = false → ∀ v ∈ c, v.base ∈ rs → i.name ≠ v.name
 
-theorem nodup_names_of_plain {rs : List Var} (hp : ∀ r ∈ rs, r.isPlain = true) (hn : rs.Nodup) :
-    (rs.map (·.name)).Nodup := by
-  refine (List.nodup_map_iff_inj_on hn).mpr ?_
-  intro a ha b hb e
-  rw [Var.isPlain_iff.mp (hp a ha), Var.isPlain_iff.mp (hp b hb)]
-  exact Var.base_eq_iff.mpr e
-
 theorem sum_leaf_general (hF : ProbFamily env) (pop : Option Name) {c rs : List Var} (h : SumLeafOK c rs) (σ : Val) :
     sumVars env.card (rs.map (·.name)) (fun τ => env.pr pop (c.map (Var.atom τ σ'))) σ =
       sumVars env.card ((diff' rs (c.map Var.base)).map (·.name))
